@@ -78,7 +78,8 @@ pub fn unquote(s: &str) -> String {
 }
 
 pub fn is_env(line: &str) -> bool {
-    re_contains(line, r"^[a-zA-Z_][a-zA-Z0-9_]*=.*$")
+    // (the value may hold line breaks: NAME=$(cmd) with several lines)
+    re_contains(line, r"(?s)^[a-zA-Z_][a-zA-Z0-9_]*=.*$")
 }
 
 // #[allow(clippy::trivial_regex)]
